@@ -33,11 +33,13 @@ def init_order_once(ctx):
     init = [i for c in calls_in(f.node) if call_attr(c) == 'initModule' for i in cfg.node_of(c)]
     if not early or not init:
         raise AnchorMissing('earlyInit / initModule calls not found in SecNode.get_module', violation='frappy.secnode.SecNode.get_module:earlyInit and initModule are called')
-    tests = [t for t in cfg.nodes if t.kind == 'test' and src(t.ast).endswith('._isinitialized')]
+    tests = [t for t in cfg.nodes if t.kind == 'test' and src(t.ast).replace('not ', '').endswith('._isinitialized')]
     ok = False
     for t in tests:
-        tr = cfg.reach([t.id], labels={'T'}, avoid=[t.id])
-        if not (tr & set(early + init)) and all(cfg.dominates([t.id], i) for i in early + init):
+        neg = src(t.ast).startswith('not ')
+        done_side = cfg.reach([t.id], labels={'F' if neg else 'T'}, avoid=[t.id])
+        fresh_side = cfg.reach([t.id], labels={'T' if neg else 'F'}, avoid=[t.id])
+        if not (done_side & set(early + init)) and all(cfg.dominates([t.id], i) for i in early + init) and set(early + init) <= fresh_side:
             ok = True
     ctx.check(ok, f'{f.qualname}:initialised module returned at once', f.node, '`if modobj._isinitialized: return` dominates the init calls',
               'an already initialised module is initialised again (earlyInit/initModule not exactly once)', f)
@@ -53,6 +55,10 @@ def init_order_once(ctx):
                for c in calls_in(f.node) if call_attr(c) in ('earlyInit', 'initModule'))
     ctx.check(t_ok, f'{f.qualname}:init errors collected', f.node, 'init calls inside try/except Exception appending to errors',
               'an exception in earlyInit/initModule is not collected as a node error', f)
+    for h in [x for x in body_walk(f.node) if isinstance(x, ast.ExceptHandler)]:
+        apps = [c for st in h.body for c in calls_in(st) if call_attr(c) == 'append' and 'errors' in src(c.func)]
+        ctx.check(bool(apps), f'{f.qualname}:a failing init is reported', h, 'the handler appends to self.errors',
+                  'an exception in earlyInit / initModule is swallowed without a node error: the node starts with a half-initialised module', f)
 
 
 def _start_loops(f):
@@ -244,6 +250,9 @@ def shutdown_order(ctx):
     stop_anchor = [i for c in calls_in(f.node) if call_attr(c) in ('stopPollThread', 'joinPollThread') for i in loop_anchor(cfg, c)]
     shut = [c for c in calls_in(f.node) if call_attr(c) == 'shutdownModule']
     shut_ids = [i for c in shut for i in cfg.node_of(c)]
+    have = {call_attr(c) for c in calls_in(f.node)}
+    ctx.check({'stopPollThread', 'joinPollThread'} <= have, f'{f.qualname}:pollers are stopped and joined', f.node, 'stopPollThread and joinPollThread are both called',
+              f'only {sorted(have & {"stopPollThread", "joinPollThread"})} is called: poll threads are still running (or never told to stop) while modules are shut down', f)
     if not stop or not shut:
         raise AnchorMissing('stopPollThread/joinPollThread/shutdownModule calls not found in shutdown_modules', violation='frappy.secnode.SecNode.shutdown_modules:stop, join and shutdown present')
     ok = not (cfg.reach(shut_ids) & set(stop)) and all(cfg.dominates(stop_anchor, i) for i in shut_ids)
@@ -358,3 +367,47 @@ def start_event_flag_follows_the_pending_set(ctx):
         ok = ok and not (set(sets) & pending_side) and all(cfgs.dominates([t], i) for i in sets)
     ctx.check(ok, f'{st.qualname}:flag set only when nothing is pending', st.node, 'super().set() only behind the emptiness test of self.events',
               'the flag can be set while events are still pending', st)
+
+
+
+@rule('C15.R5b', min_instances=2)
+def serving_ends_with_the_module_shutdown(ctx):
+    """Server.run: after the interface threads have ended (join loop) the modules are shut down (secnode.shutdown_modules()),
+    on every path that leaves a turn of the serving loop after the interfaces were opened; the discovery responder thread is
+    started next to its construction"""
+    m = ctx.m
+    run = m.method(SRV, 'run', inherited=False)
+    ctx.analysed(run)
+    cfg = CFG(run.node, m, run.module)
+    shut = [i for c in calls_in(run.node) if call_attr(c) == 'shutdown_modules' for i in cfg.node_of(c)]
+    joins = [i for c in calls_in(run.node) if call_attr(c) == 'join' for i in cfg.node_of(c)]
+    ctx.check(bool(shut), f'{run.qualname}:modules are shut down when serving ends', run.node, 'self.secnode.shutdown_modules()',
+              'Server.run never shuts the modules down: no shutdownModule, poll threads keep running into interpreter exit', run)
+    if shut and joins:
+        ctx.check(not (set(joins) & cfg.reach(shut, avoid=[t.id for t in cfg.nodes if t.kind == 'test' and 'self._restart' in src(t.ast) and isinstance(getattr(t.ast, 'cfg_owner', None), ast.While)])),
+                  f'{run.qualname}:shutdown after the interfaces ended', run.node, 'the join of the interface threads precedes shutdown_modules()',
+                  'the modules are shut down while the interfaces are still serving requests', run)
+    g = m.method(SN, '_getSortedModules', inherited=False)
+    go = g.nested.get('go', [None])[0]
+    if go is None:
+        return
+    ctx.analysed(g)
+    cfgg = CFG(go.node, m, go.module)
+    p = go.node.args.args[0].arg
+    for t in cfgg.nodes:
+        if t.kind != 'test':
+            continue
+        for l, op, r in compare_ops(t.ast):
+            if l == p and op in ('in', 'notin') and r in ('done', 'visited'):
+                side = cfgg.reach([t.id], labels={'T' if op == 'in' else 'F'}, avoid=[t.id])
+                want = r == 'done'
+                rets = [n for n in body_walk(go.node) if isinstance(n, ast.Return) and isinstance(n.value, ast.Constant) and n.value.value is want
+                        and set(cfgg.ids(n)) <= side and any(a is getattr(t.ast, 'cfg_owner', None) for a in ancestors(n))]
+                ctx.check(bool(rets), f'{g.qualname}:a module {"already sorted" if want else "met again on the current path (cycle)"} returns {want}', t.ast,
+                          f'`if {p} in {r}: return {want}`',
+                          f'`{src(t.ast)}`: the depth-first sort does not return {want} on the side where the module is in `{r}`: '
+                          + ('finished modules are sorted again' if want else 'a cyclic attachment is not detected / every module looks cyclic'), g)
+    marks = [i for c in calls_in(go.node) if call_attr(c) == 'add' and src(c.func.value) == 'done' for i in cfgg.node_of(c)]
+    fin = [i for n in body_walk(go.node) if isinstance(n, ast.Return) and isinstance(n.value, ast.Constant) and n.value.value is True and n is go.node.body[-1] for i in cfgg.ids(n)]
+    ctx.check(bool(marks) and bool(fin) and all(cfgg.dominates(marks, i) for i in fin), f'{g.qualname}:a sorted module is marked done', go.node, 'done.add(name) before the final return True',
+              'modules are never marked as done: shared attachments are sorted (appended) several times', g)
